@@ -208,6 +208,8 @@ def judge(items, results, part):
         exp = interp.final()
         obs = r["acts"]
         problems = []
+        if r.get("execute_agrees") is False:
+            problems.append("VM::execute() ends in another state than executeSingle() steps: %s" % r.get("execute_acts"))
         if len(exp) != len(obs):
             problems.append("live activations: reference %d, VM %d" % (len(exp), len(obs)))
         else:
